@@ -15,6 +15,7 @@ mod project;
 mod run;
 mod drv_random;
 mod drv_replay;
+mod drv_sat;
 
 use serde_json::Value;
 
@@ -71,6 +72,22 @@ fn main()
             }
             run::write_lines(&out, &lines);
             println!("{}", serde_json::json!({"scenarios" : n, "snapshots" : snaps, "events" : lines.len(), "counts" : run::counts(&lines)}));
+        },
+        "sort" | "ident" | "parse" | "persist" =>
+        {
+            let out = arg(&args, "--out", "records.ndjson");
+            let n : usize = arg(&args, "--n", "3").parse().unwrap();
+            let random : usize = arg(&args, "--random", "200").parse().unwrap();
+            let seed : u64 = arg(&args, "--seed", "1").parse().unwrap();
+            let recs = match cmd.as_str()
+            {
+                "sort" => drv_sat::sort_cases(n, random, seed),
+                "ident" => drv_sat::ident_cases(random, seed),
+                "parse" => drv_sat::parse_cases(n, random, seed),
+                _ => drv_sat::persist_cases(n, seed),
+            };
+            run::write_lines(&out, &recs);
+            println!("{}", serde_json::json!({"records" : recs.len()}));
         },
         "replay" =>
         {
